@@ -756,6 +756,11 @@ func c15FindOffset(input []byte, want c15PosTriple, hint int) int {
 // buf is the parser's own buffer at the time of the error (nil when not observable): a parser that has
 // modified its buffer in place reports positions of the modified text.
 func c15CheckError(rep *Report, who string, input, buf []byte, err error, stop int, exact bool) {
+	c15CheckErrorIn(rep, who, input, buf, err, -1, stop, exact)
+}
+
+// c15CheckErrorIn: as c15CheckError; with exact == false and lo >= 0 the byte must lie in [lo, stop].
+func c15CheckErrorIn(rep *Report, who string, input, buf []byte, err error, lo, stop int, exact bool) {
 	pe, ok := err.(*parse.Error)
 	if !ok {
 		return
@@ -784,6 +789,16 @@ func c15CheckError(rep *Report, who string, input, buf []byte, err error, stop i
 	}
 	if exact && k != stop && c15PositionOf(input, stop) != got {
 		rep.Violate("c15-error-offset:"+who+":"+trunc(hx(input), 80), fmt.Sprintf("%s on %q: error reported at offset %d (line %d, col %d), the parser stopped at byte %d", who, trunc(string(input), 200), k, l, c, stop), replay)
+	}
+	if !exact && stop >= 0 && lo >= 0 {
+		// the byte lies in what the parser read during this call: [lo, stop]
+		found := false
+		for j := lo; j <= stop && j <= len(input) && !found; j++ {
+			found = c15PositionOf(input, j) == got
+		}
+		if !found {
+			rep.Violate("c15-error-range:"+who+":"+trunc(hx(input), 80), fmt.Sprintf("%s on %q: error reported at offset %d (line %d, col %d), outside the bytes [%d,%d] read by the call that detected it", who, trunc(string(input), 200), k, l, c, lo, stop), replay)
+		}
 	}
 	if want := fmt.Sprintf("%s on line %d and column %d\n%s", pe.Message, l, c, x); pe.Error() != want {
 		rep.Violate("c15-error-string:"+who, "Error() is not message, line, column and context", replay)
@@ -1135,13 +1150,15 @@ func c15ErrorOracle(r *Rng, tier string, rep *Report) {
 				who = "css"
 				in := cp()
 				pr := css.NewParser(in, which == 4)
+				before, prev := 0, 0 // the parser looks one token ahead: the window is the last two calls
 				for k := 0; k < 3*len(input)+10; k++ {
+					prev, before = before, in.Offset()
 					gt, _, _ := pr.Next()
 					if gt == css.ErrorGrammar {
 						e := pr.Err()
 						if _, ok := e.(*parse.Error); ok {
 							// a parse error does not stop the css parser: check it and go on
-							c15CheckError(rep, who, input, in.Bytes(), e, in.Offset(), false)
+							c15CheckErrorIn(rep, who, input, in.Bytes(), e, prev, in.Offset(), false)
 							rep.Eval(key+fmt.Sprint(k), true, "css-parse-error")
 							continue
 						}
@@ -1159,7 +1176,7 @@ func c15ErrorOracle(r *Rng, tier string, rep *Report) {
 					if tt == js.ErrorToken {
 						e := l.Err()
 						if _, ok := e.(*parse.Error); ok {
-							c15CheckError(rep, who, input, in.Bytes(), e, before, false)
+							c15CheckErrorIn(rep, who, input, in.Bytes(), e, before, in.Offset(), false)
 							rep.Eval(key+fmt.Sprint(k), true, "js-lexer-error")
 							continue
 						}
